@@ -6,7 +6,7 @@
    hashed); ModeInKey = FALSE drops on_demand from the key.  Both are negative controls.        *)
 EXTENDS Integers, Sequences, FiniteSets, TLC, SequencesExt, FiniteSetsExt
 
-CONSTANTS KeyIgnores, ModeInKey, MaxLen, EmitBeh
+CONSTANTS KeyIgnores, ModeInKey, MaxLen, EmitBeh, SameKeyOnly
 
 AttrNames == {"op", "fn", "const", "shape", "deriv", "measure", "bdry", "arity", "comps", "space", "upd", "phys"}
 Base == [op |-> "+", fn |-> "sin", const |-> 2, shape |-> 0, deriv |-> 0, measure |-> "dx", bdry |-> FALSE,
